@@ -198,15 +198,18 @@ pub fn run_a_star(
             .join("target")
             .join("flamegraph");
 
-        if !outdir.exists() {
-            std::fs::create_dir(&outdir).unwrap();
+        // diagnostics only: a location that cannot be written (or that another search is
+        // creating at this moment) must not fail the search
+        let written = std::fs::create_dir_all(&outdir)
+            .and_then(|_| {
+                std::fs::File::create(
+                    outdir.join(format!("search_memory_flamegraph_{}.out", search_name)),
+                )
+            })
+            .and_then(|mut flamegraph_file| flamegraph_file.write_all(output.as_bytes()));
+        if let Err(e) = written {
+            log::debug!("could not write search flamegraph to {:?}: {}", outdir, e);
         }
-
-        let mut flamegraph_file = std::fs::File::create(
-            outdir.join(format!("search_memory_flamegraph_{}.out", search_name)),
-        )
-        .unwrap();
-        flamegraph_file.write_all(output.as_bytes()).unwrap();
     }
 
     #[cfg(feature = "verif_hooks")]
